@@ -8,9 +8,10 @@ VERIF = "/verif"
 WAVE2 = "--wave2" in sys.argv
 WAVE3 = "--wave3" in sys.argv
 WAVE4 = "--wave4" in sys.argv
-CFDIR = "/tmp/cf4" if WAVE4 else "/tmp/cf3" if WAVE3 else "/tmp/cf2" if WAVE2 else "/tmp/cf"
-SRCROOT = "/tmp/mutout4" if WAVE4 else "/tmp/mutout3" if WAVE3 else "/tmp/mutout2" if WAVE2 else "/tmp/mutout"
-KOFF = 9 if WAVE4 else 6 if WAVE3 else 3 if WAVE2 else 0
+WAVE5 = "--wave5" in sys.argv
+CFDIR = "/tmp/cf5" if WAVE5 else "/tmp/cf4" if WAVE4 else "/tmp/cf3" if WAVE3 else "/tmp/cf2" if WAVE2 else "/tmp/cf"
+SRCROOT = "/tmp/mutout5" if WAVE5 else "/tmp/mutout4" if WAVE4 else "/tmp/mutout3" if WAVE3 else "/tmp/mutout2" if WAVE2 else "/tmp/mutout"
+KOFF = 12 if WAVE5 else 9 if WAVE4 else 6 if WAVE3 else 3 if WAVE2 else 0
 ALL = ["C01", "C02", "C03", "C04", "C05", "C07", "C08", "C09", "C10", "C11", "C12", "C13", "C14", "C15", "C16", "C17", "C18", "C19", "C20"]
 
 
@@ -57,7 +58,7 @@ def one(jf):
     meta = {
         "property": P,
         "seed": f"{P}-{k}",
-        "round": 4 if WAVE4 else 3 if WAVE3 else 2 if WAVE2 else 1,
+        "round": 5 if WAVE5 else 4 if WAVE4 else 3 if WAVE3 else 2 if WAVE2 else 1,
         "summary": title[:300],
         "needs_to_manifest": needs or "see notes.md",
         "what_was_run": {
